@@ -49,7 +49,10 @@ def run_one(m, args):
                 if r.returncode != 0:
                     return {"id": m["id"], "ok": False, "why": "patch does not apply: " + r.stdout + r.stderr}
         else:
-            apply_edit(root, m)
+            try:
+                apply_edit(root, m)
+            except SystemExit as e:
+                return {"id": m["id"], "ok": False, "why": "stale entry: " + str(e)}
         if args.build:
             r = subprocess.run(["go", "build", "./..."], cwd=root, env=ENV, capture_output=True, text=True)
             if r.returncode != 0:
